@@ -240,3 +240,33 @@ def dominated_by_edge(fn, bid, cond_pred, label="true"):
         if tgt != other and not reachable_without_edge(fn, d, tgt, bid):
             out.append(d)
     return out
+
+
+def contradictory_block(fn, bid):
+    """block bid can only be reached under a side-effect-free condition AND under its negation (e.g. the `else` of `if (A || B)`
+    followed by `if (... && B)`): it is dead code. Purely syntactic and conservative - the condition text must coincide and nothing
+    it reads may be written in between is NOT checked beyond "no assignment / increment / non-const-looking call in the text"."""
+    from .ir import fmt
+    from . import ir
+    dom = dominators(fn)
+    seen = {}
+    for d in dom.get(bid, ()):
+        if d == bid:
+            continue
+        c = fn.term(d).get("cond")
+        if c is None:
+            continue
+        c2, flipped = strip_not(c)
+        t = fmt(ir.unwrap(c2))
+        if any(tok in t for tok in ("++", "--", " = ", "+=", "-=", "push_back", "emplace", "insert", "erase", "next", "get(")):
+            continue
+        succ = dict((lab, to) for to, lab in fn.succs(d))
+        for lab in ("true", "false"):
+            tgt = succ.get(lab)
+            other = succ.get("false" if lab == "true" else "true")
+            if tgt is None or tgt == other:
+                continue
+            if not reachable_without_edge(fn, d, tgt, bid):
+                pol = (lab == "true") != flipped
+                seen.setdefault(t, set()).add(pol)
+    return any(len(v) == 2 for v in seen.values())
